@@ -45,4 +45,11 @@ end
 def ensureRow (r x : Nat) (rows : List (Umya.StyleCodec.Row × Nat)) : List (Umya.StyleCodec.Row × Nat) :=
   if rows.any (fun p => p.1.num == r) then rows else rows ++ [({ num := r }, x)]
 
+/-- `get_column_dimension_by_number_mut(col)` as called by `get_cell_mut` (`Columns::get_column_mut`): a column
+    without a record gets a default one (`Column::default()`: width 8.38, no flags) pushed at the end.  A record is
+    (column, min, max, xf); the in-memory records are one per column (min = max = `col_num`), looked up by `col_num` -/
+def ensureCol (k x : Nat) (cols : List (Umya.StyleCodec.Col × Nat × Nat × Nat)) :
+    List (Umya.StyleCodec.Col × Nat × Nat × Nat) :=
+  if cols.any (fun p => p.2.1 == k) then cols else cols ++ [({ width := Umya.StyleCodec.defaultWidth }, k, k, x)]
+
 end Umya.CellXml
